@@ -34,7 +34,6 @@ impl<T: Qcow2IoOps> Qcow2Dev<T> {
     /// to land the changes on disk.
     pub async fn discard(&self, virtual_offset: u64, len: u64) -> Qcow2Result<()> {
         let info = &self.info;
-        let cluster_size = info.cluster_size() as u64;
 
         if info.is_read_only() {
             return Err("discard: discard on read-only image".into());
@@ -68,26 +67,39 @@ impl<T: Qcow2IoOps> Qcow2Dev<T> {
             stop
         );
 
+        // One l2 slice at a time: the slice is updated and written out once
+        // for all the clusters it maps, see __discard_in_slice()
+        let slice_span = (info.l2_slice_entries as u64) << info.cluster_bits();
         let mut guest = start;
         while guest < stop {
-            self.__discard_one_cluster(guest).await?;
-            guest += cluster_size;
+            let slice_end = std::cmp::min(stop, (guest & !(slice_span - 1)) + slice_span);
+            self.__discard_in_slice(guest, slice_end).await?;
+            guest = slice_end;
         }
 
         Ok(())
     }
 
-    /// Discard a single guest cluster at `guest_offset` (cluster-aligned).
+    /// Discard the guest clusters in `[start, end)`, which are all mapped
+    /// by one l2 slice (both cluster-aligned).
     ///
     /// Returns `Ok(())` for every non-fatal case: already-unallocated,
     /// zero-flagged, compressed, or L2-slice-absent ranges all silently
     /// no-op. The only errors are propagated from `free_clusters` /
-    /// `call_fallocate` failures (genuine IO errors on the host file
-    /// or refcount metadata).
-    async fn __discard_one_cluster(&self, guest_offset: u64) -> Qcow2Result<()> {
+    /// `call_fallocate` / meta flush failures (genuine IO errors on the
+    /// host file or refcount metadata).
+    ///
+    /// Meta update order: a cluster's refcount may only be dropped once
+    /// the l2 entry referencing it is gone from the *disk*, otherwise a
+    /// crash leaves a mapped cluster with refcount 0, which the allocator
+    /// hands out again while the stale mapping still points to it. So
+    /// the updated slice is written in place and synced before the
+    /// clusters are released (same scheme as COW of compressed clusters).
+    async fn __discard_in_slice(&self, start: u64, end: u64) -> Qcow2Result<()> {
         let info = &self.info;
-        debug_assert_eq!(info.in_cluster_offset(guest_offset), 0);
-        let split = SplitGuestOffset(guest_offset);
+        let cluster_size = info.cluster_size() as u64;
+        debug_assert_eq!(info.in_cluster_offset(start), 0);
+        let split = SplitGuestOffset(start);
 
         // Fast path: no L2 slice exists for this region; nothing to free.
         let l1_e = self.get_l1_entry(&split).await?;
@@ -95,65 +107,98 @@ impl<T: Qcow2IoOps> Qcow2Dev<T> {
             return Ok(());
         }
 
-        let l2_handle = self.get_l2_slice(&split).await?;
-        let mut l2_table = l2_handle.value().write().await;
-
-        let entry = l2_table.get_entry(info, &split);
-
-        // Compressed clusters share host sectors; punching could corrupt
-        // a neighbor. Leave them mapped.
-        if entry.is_compressed() {
-            return Ok(());
-        }
-
-        let allocation = entry.allocation(info.cluster_bits() as u32);
-        let Some((host_cluster, host_count)) = allocation else {
-            // Unallocated or zero-flagged-only entry — nothing to release.
-            return Ok(());
-        };
-
         // With a backing file an all-zero L2 entry does not read as zero but
         // falls through to the backing image, so the discarded cluster has to
         // be left zero-flagged. Version 2 images have no zero flag: keep the
         // cluster mapped there and just zero its host range.
+        let keep_mapped = info.has_back_file() && self.header.read().await.version() < 3;
         let new_entry = if info.has_back_file() {
-            if self.header.read().await.version() < 3 {
-                let punch_len = host_count * info.cluster_size();
-                return self
-                    .call_fallocate(host_cluster, punch_len, Qcow2OpsFlags::FALLOCATE_ZERO_RANGE)
-                    .await;
-            }
             L2Entry(1)
         } else {
             L2Entry(0)
         };
 
-        // Clear the L2 entry (unallocated or zero-flagged state, reads-as-zero).
-        let idx = split.l2_slice_index(info);
-        l2_table.set(idx, new_entry);
-        l2_handle.set_dirty(true);
-        self.mark_need_flush(true);
+        let l2_handle = self.get_l2_slice(&split).await?;
+        let mut l2_table = l2_handle.value().write().await;
+
+        // host clusters to be released / to be zeroed only
+        let mut released = Vec::new();
+        let mut zeroed = Vec::new();
+        let mut guest = start;
+        while guest < end {
+            let s = SplitGuestOffset(guest);
+            let entry = l2_table.get_entry(info, &s);
+            guest += cluster_size;
+
+            // Compressed clusters share host sectors; punching could corrupt
+            // a neighbor. Leave them mapped.
+            if entry.is_compressed() {
+                continue;
+            }
+
+            // Unallocated or zero-flagged-only entry: nothing to release.
+            let Some(allocation) = entry.allocation(info.cluster_bits() as u32) else {
+                continue;
+            };
+
+            if keep_mapped {
+                zeroed.push(allocation);
+            } else {
+                // Clear the L2 entry (unallocated or zero-flagged state,
+                // reads-as-zero).
+                l2_table.set(s.l2_slice_index(info), new_entry);
+                released.push(allocation);
+            }
+        }
+
+        if !released.is_empty() {
+            l2_handle.set_dirty(true);
+            self.mark_need_flush(true);
+
+            // A still 'new' l2 cluster isn't reachable from the l1 table on
+            // disk, so nothing on disk maps these clusters through it (and
+            // a slice written in place now would be wiped by the zeroing
+            // which precedes the cluster's first regular flush).
+            let l2_cluster = l2_table.get_offset().unwrap() >> info.cluster_bits();
+            if !self.cluster_is_new(l2_cluster).await {
+                // this slice may also hold new mappings whose refcounts
+                // aren't on disk yet
+                self.flush_refcount().await?;
+                self.flush_table(&*l2_table, 0, l2_table.byte_size())
+                    .await?;
+                l2_handle.set_dirty(false);
+                self.call_fsync(0, usize::MAX, 0).await?;
+            }
+        }
         drop(l2_table);
 
-        // Punch the host file so the OS reclaims the bytes. The
-        // FALLOCATE_ZERO_RANGE flag asks for both hole-punch + reads-as-
-        // zero semantics. On filesystems that don't support either,
-        // call_fallocate falls back to writing zeros (see `call_fallocate`
-        // implementation), so the LBPRZ-equivalent contract still holds.
-        //
-        // This has to be done while the host cluster(s) are still
-        // refcounted: once the refcount drops to zero the allocator may
-        // hand the cluster to a concurrent writer, and a punch completing
-        // after that writer's data write would wipe acknowledged data.
-        let punch_len = host_count * info.cluster_size();
-        self.call_fallocate(host_cluster, punch_len, Qcow2OpsFlags::FALLOCATE_ZERO_RANGE)
-            .await?;
+        for (host_cluster, host_count) in zeroed {
+            let punch_len = host_count * info.cluster_size();
+            self.call_fallocate(host_cluster, punch_len, Qcow2OpsFlags::FALLOCATE_ZERO_RANGE)
+                .await?;
+        }
 
-        // Refcount-release the host cluster(s). For ordinary (non-
-        // compressed) entries this is always a single cluster, but we
-        // pass `host_count` through to mirror the existing free_clusters
-        // call sites in the COW path.
-        self.free_clusters(host_cluster, host_count).await?;
+        for (host_cluster, host_count) in released {
+            // Punch the host file so the OS reclaims the bytes. The
+            // FALLOCATE_ZERO_RANGE flag asks for both hole-punch + reads-as-
+            // zero semantics. On filesystems that don't support either,
+            // call_fallocate falls back to writing zeros (see `call_fallocate`
+            // implementation), so the LBPRZ-equivalent contract still holds.
+            //
+            // This has to be done while the host cluster(s) are still
+            // refcounted: once the refcount drops to zero the allocator may
+            // hand the cluster to a concurrent writer, and a punch completing
+            // after that writer's data write would wipe acknowledged data.
+            let punch_len = host_count * info.cluster_size();
+            self.call_fallocate(host_cluster, punch_len, Qcow2OpsFlags::FALLOCATE_ZERO_RANGE)
+                .await?;
+
+            // Refcount-release the host cluster(s). For ordinary (non-
+            // compressed) entries this is always a single cluster, but we
+            // pass `host_count` through to mirror the existing free_clusters
+            // call sites in the COW path.
+            self.free_clusters(host_cluster, host_count).await?;
+        }
 
         Ok(())
     }
